@@ -18,7 +18,7 @@
  * case:   <mode> ; ops ; beh0 | beh1 | ... ; script
  * ops:    K<n> n new clients   R uv_run(NOWAIT)   Af|Ab|At uv_accept into a fresh /
  *         busy / wrong-type handle   C uv_close   N pending_count   T pending_type
- *         M<kinds> send one message with descriptors (t tcp, u unix, d udp)
+ *         M<kinds> send one message with descriptors (t tcp, u unix, d udp, T/D unbound AF_INET6 stream/dgram)
  *         F<j> the j-th queue allocation from now fails
  *         D<n> send a plain data chunk of n bytes (mode i<size>: alloc_cb hands out <size> bytes)
  *         S1|S0 descriptor shortage on/off: accept4 answers EMFILE unless libuv gave up its spare fd
@@ -272,6 +272,14 @@ static void send_msg(const char* kinds) {
       a = socket(AF_INET, SOCK_DGRAM, 0);
       if (a < 0 || connect(a, (struct sockaddr*) &ad, sizeof ad)) continue;
       b = -2;
+    } else if (*kinds == 'T' || *kinds == 'D') {
+      /* an unbound AF_INET6 stream / datagram socket (getsockname reports the family; nothing is configured or
+       * connected); without IPv6 support an AF_INET socket of the same type stands in (same handle type) */
+      int ty = *kinds == 'T' ? SOCK_STREAM : SOCK_DGRAM;
+      a = socket(AF_INET6, ty, 0);
+      if (a < 0) a = socket(AF_INET, ty, 0);
+      if (a < 0) continue;
+      b = -3;
     } else continue;
     fstat(a, &sb);
     sent[nsent].ino = sb.st_ino; sent[nsent].kind = *kinds; sent[nsent].peer = b; nsent++;
@@ -293,6 +301,7 @@ static void send_msg(const char* kinds) {
  * a token written through it arrives at the other end */
 static int token_ok_ipc(int fd, int id) {
   unsigned char t = (unsigned char) (id + 1), g = 0; struct pollfd pf; int peer = sent[id].peer;
+  if (peer == -3) return 1;                 /* unconnected socket: identified by its inode alone */
   if (write(fd, &t, 1) != 1) return 0;
   pf.fd = peer == -2 ? udp_recv : peer; pf.events = POLLIN; pf.revents = 0;
   if (poll(&pf, 1, 5000) != 1) return 0;
